@@ -14,6 +14,7 @@ from vf.common import MachineryError
 
 PROP = "C09"
 LOG = []
+SHARED_LIST = ['x']   # a mutable value reachable from the record (r.fl and r.c.fl)
 
 
 def _by_helper():
@@ -49,14 +50,19 @@ class Canary(str):
         return Canary("inner")
 
     @property
+    def fl(self):
+        return SHARED_LIST
+
+    @property
     def ipaddress(self):
         return Canary("ip")
 
 
 HELPERS = ["lower", "upper"]
-NAMES = ["r", "net", "f"] + HELPERS + ["len", "open"]
-ATTRS = ["strip", "upper", "__class__", "s", "ipaddress"]
-CONTEXTS = ["bare", "arg", "operand", "listelt", "genelt", "geniter", "gencond", "kwarg", "not", "boolop"]
+NAMES = ["r", "net", "f", "string"] + HELPERS + ["len", "open"]
+GENFLAGS = ["none", "f", "string", "f_op"]
+ATTRS = ["strip", "upper", "__class__", "__x", "s", "ipaddress", "fl"]
+CONTEXTS = ["bare", "arg", "operand", "listelt", "genelt", "geniter", "gencond", "kwarg", "not", "boolop", "add_list", "mult", "bitor"]
 
 
 def targets():
@@ -81,7 +87,7 @@ def render(t, g, ctx):
         X = tgt
     elif t["chain"] and t["chain"][-1] == "ipaddress" and b.get("n") == "net" and len(t["chain"]) == 1:
         X = tgt + "('1.2.3.4')"
-    elif b.get("n") in ("lower", "upper", "len", "open") and not t["chain"]:
+    elif b.get("n") in ("lower", "upper", "len", "open", "string") and not t["chain"]:
         X = tgt + "(r.c)"
     else:
         X = tgt + "()"
@@ -89,9 +95,12 @@ def render(t, g, ctx):
         "bare": f"{X} == 1", "arg": f"lower({X}) == 1", "operand": f"({X} + 'x') == 1", "listelt": f"[{X}] == 1",
         "genelt": f"any({X} == 1 for y in [1])", "geniter": f"any(y == 1 for y in [{X}])", "gencond": f"any(y == 1 for y in [1] if {X})",
         "kwarg": f"field_contains(r, ['c'], ['x'], nocase={X})", "not": f"not {X}", "boolop": f"True and {X}",
+        "add_list": f"({X} + ['y']) == 1", "mult": f"({X} * 2) == 1", "bitor": f"({X} | 1) == 1",
     }[ctx]
-    if g:
-        e = f"any({e} for f in [r.c.strip])"
+    if g == "f_op":
+        e = f"1 in ({e} for f in [r.c.strip])"
+    elif g != "none":
+        e = f"any({e} for {g} in [r.c.strip])"
     return e
 
 
@@ -101,7 +110,9 @@ def run_shape(src, D):
     LOG.clear()
     rec = D.recordType.__new__(D.recordType)
     can = Canary("canary")
-    fl = ["x"]
+    del SHARED_LIST[:]
+    SHARED_LIST.append("x")
+    fl = SHARED_LIST
     object.__setattr__(rec, "c", can)
     object.__setattr__(rec, "fl", fl)
     for k in ("_source", "_classification", "_generated", "_version"):
@@ -127,6 +138,7 @@ def run(tier):
     if thorough:
         ctx.sensitivity("Policy", "MC_Policy_dev_Path.cfg", "as-built path resolution must violate OnlyWhitelistedInvoked", "OnlyWhitelistedInvoked", workers=4)
         ctx.sensitivity("Policy", "MC_Policy_dev_GenVar.cfg", "generator variable as call target must violate OnlyWhitelistedInvoked", "OnlyWhitelistedInvoked", workers=4)
+        ctx.sensitivity("Policy", "MC_Policy_dev_Shadow.cfg", "generator variable named like a field type must violate OnlyWhitelistedInvoked", "OnlyWhitelistedInvoked", workers=4)
     # the grammar's partition of Python's expression nodes: every ast.expr subclass is either handled by the
     # shapes/contexts above or must be refused syntactically -- assert the refused set really is refused
     D = RecordDescriptor("t/c9", [("string", "c"), ("stringlist", "fl")])
@@ -149,7 +161,7 @@ def run(tier):
     cases, metas = [], []
     ts = targets()
     for t in ts:
-        for g in (False, True):
+        for g in GENFLAGS:
             for c in (CONTEXTS if thorough or True else CONTEXTS[:4]):
                 src = render(t, g, c)
                 cases.append({"t": t, "g": g, "ctx": c, "obs": run_shape(src, D)})
